@@ -848,4 +848,59 @@ def readEverything (root : T) : T × List (Path × LeafMap × List Path) :=
     | (t', some v) => (t', acc.2 ++ [(p, v.1, v.2)])
     | (t', none) => (t', acc.2)) (root, [])
 
+/-! ### `notify_on_change` is a thread-local stack of scopes; two trees (flags.py)
+
+`pg.notify_on_change(v)` pushes `v` on a stack that belongs to the calling thread
+(`thread_local_value_scope`); `is_change_notification_enabled()` reads the innermost entry of the
+calling thread's stack, True when the thread is inside no such scope. -/
+
+/-- Per thread: the scopes it is inside of, innermost first. -/
+abbrev NStacks := Nat → List Bool
+
+def switchOn (st : List Bool) : Bool := st.head?.getD true
+
+inductive NAct where
+  | enter (v : Bool) | leave
+  deriving Repr
+
+def NAct.apply (st : List Bool) : NAct → List Bool
+  | .enter v => v :: st
+  | .leave => st.tail
+
+def NStacks.act (ts : NStacks) (t : Nat) (a : NAct) : NStacks :=
+  fun i => if i = t then NAct.apply (ts t) a else ts i
+
+/-- One step of a history of several threads over two trees: thread `t` enters / leaves a scope, or
+makes a call on a node of one of the trees (`wrapper = false`: the call is `rebind(...,
+skip_notification=True)`-like, silenced by the caller itself). -/
+inductive NStep where
+  | scope (t : Nat) (a : NAct)
+  | call (t : Nat) (inExt : Bool) (recv : Path) (wrapper : Bool) (op : Op)
+
+structure NState where
+  stacks : NStacks
+  tree : T
+  ext : T
+
+def stepN (s : NState) : NStep → NState × Out
+  | .scope t a => ({ s with stacks := s.stacks.act t a }, { tree := s.tree, ok := true, events := [] })
+  | .call t inExt recv w op =>
+    let on := w && switchOn (s.stacks t)
+    if inExt then
+      let o := step s.ext recv on op
+      ({ s with ext := o.tree }, o)
+    else
+      let o := step s.tree recv on op
+      ({ s with tree := o.tree }, o)
+
+def runN : NState → List NStep → NState
+  | s, [] => s
+  | s, x :: rest => runN (stepN s x).1 rest
+
+/-- The scope actions of thread `t` in a history, in order. -/
+def ownNActs (t : Nat) : List NStep → List NAct
+  | [] => []
+  | .scope u a :: rest => if u = t then a :: ownNActs t rest else ownNActs t rest
+  | .call _ _ _ _ _ :: rest => ownNActs t rest
+
 end Pg.C09
